@@ -161,11 +161,31 @@ def flood(R, kind, n_keys):
     return tag(17 if kind == "map" else 18) + i16(n_keys) + body
 
 
+def hello_chain(R, n):
+    """a sequence of n client hellos, the first n-2 of them 'greedy': in the place of the integer version they carry a sequence of three
+    values - a filler that ends exactly where the padding of that hello would end, and the two values that follow it in the stream (the
+    next two hellos) - so that the padding still to be read after the version field is negative.  A decoder that only ever reads forward
+    refuses the innermost greedy hello at once; one that seeks backwards by the negative amount decodes every hello again and again"""
+    C = R.C
+    body_len = C.Packet.MAX_PAYLOAD_SIZE - 2 - C.PacketHeader.SIZE - 2
+    der = R.K.EllipticCurvePrivateKey.new().getPublicKey().getBytes()
+    hid = tag(R.hello.type_id)
+    key = enc_bytes(der)
+    plain = key + i8(1)
+    plain = hid + plain + b"\xa5" * (body_len - len(plain))
+    g = key + tag(16) + i8(3)
+    fill = body_len - len(g) - 6
+    g = hid + g + tag(14) + i16(fill) + b"\x5a" * fill
+    return tag(16) + i16(n) + g * (n - 2) + plain * 2
+
+
 def scaling_monitor(R, ctx):
     """work grows with the size of the input, not with its square: for crafted families the CPU time of decoding an input of twice the
     size is at most about twice as long (keys with one common hash in maps and sets; long flat sequences as the control)"""
     families = [("flood-map", lambda n: flood(R, "map", n)), ("flood-set", lambda n: flood(R, "set", n)),
                 ("flat-seq", lambda n: tag(16) + i16(n) + i8(1) * n)]
+    if hasattr(R, "hello") and hasattr(R, "C"):
+        families.append(("hello-chain", lambda n: hello_chain(R, max(4, n // 125))))      # 12, 24 (thorough: 16, 32, 64) hellos
     for name, make in families:
         rows = []
         for n in ctx.scale([1500, 3000], [2000, 4000, 8000]):
